@@ -134,7 +134,7 @@ func ZZ_C03_data_gate() {
 	p := zzNewParty()
 	d := zzCopyData(b.data)
 	if zzsym.Bool("altertx") {
-		d.Txs = types.Txs{types.Tx(zzsym.BytesN("mtx", 1))}
+		d.Txs = types.Txs{types.Tx(zzsym.BytesN("mtx", zzC03TxBytes))}
 	}
 	// structurally unusual but decodable third-party material: no metadata section
 	noMeta := zzsym.Bool("nometadata")
@@ -212,7 +212,7 @@ func ZZ_C03_apply_binds_data() {
 	// transactions, metadata absent, arbitrary, or copied from the public header
 	d := &types.Data{}
 	if zzsym.Bool("offered-nonempty") {
-		d.Txs = types.Txs{types.Tx(zzsym.BytesN("ptx", 1))}
+		d.Txs = types.Txs{types.Tx(zzsym.BytesN("ptx", zzC03TxBytes))}
 	}
 	switch zzsym.Pick("meta", 3) {
 	case 1:
